@@ -30,7 +30,7 @@ TABLE = {
     ),
     "C05": (
         "Hypothesis PBT; differential against a reference partition of (operation, corner) computed from lattice bookkeeping; metamorphic over insertion order",
-        "Generated search (exploration): lattice assemblies with random patch names, 0-2 master/slave pairs (also two pairs at one node), sub-tolerance jitter that must merge and near-misses (3-8 x TOL) that must not; the vertex partition read from Block.indexes and from the parsed file is compared with the reference partition by (position class, slave-patch set); indices dense and in list order; same partition for a second insertion order.",
+        "Generated search (exploration): lattice assemblies with random patch names, 0-2 master/slave pairs (also two pairs at one node; three pairs with a slave named like two others joined, placed across a merged interface), sub-tolerance jitter that must merge and near-misses (3-8 x TOL) that must not; the vertex partition read from Block.indexes and from the parsed file is compared with the reference partition by (position class, slave-patch set); indices dense and in list order; same partition for a second insertion order.",
         "Combinations the statement leaves open (two different non-empty slave sets at one point) are counted, not judged. Positions are either identical/sub-TOL or >= 3 TOL apart (no chains).",
     ),
     "C06": (
@@ -85,7 +85,7 @@ TABLE = {
     ),
     "C19": (
         "Hypothesis PBT; differential: position of each addressed entity in the stack's / shape's own frame (harness's layer maps), parsed file after delete",
-        "Generated search (exploration): Grid n1 x n2 in 1..5, 1-4 tiers, extruded/revolved/transformed stacks, 8 round shapes and 12 sketches in general placement; grid[k][j][i] and get_slice checked by position, core/shell partition by contact with the outer curve, delete/chop of an addressed entity hits exactly that hex in the written file.",
+        "Generated search (exploration): Grid n1 x n2 in 1..5, 1-4 tiers, extruded/revolved/transformed stacks, 8 round shapes and 12 sketches in general placement; grid[k][j][i] and get_slice checked by position, core/shell partition by contact with the outer curve (also for user subclasses with their own sketch_class, named like a built-in class or not), delete/chop of an addressed entity hits exactly that hex in the written file.",
         "WrappedDisk (three tiers) partition is not required to be exhaustive. The HalfSplineDisk grid finding was repaired in /repo.",
     ),
     "C20": (
